@@ -84,6 +84,7 @@ func runC18(rc *RC) {
 	keepCtx := ch.Chance("workload", 1, 3)
 	nInv := ch.Int("workload", 3)
 	nStray := ch.Int("workload", 3)
+	invIDMode := ch.Int("workload", 4)
 	rc.Describe("strategy=%s rooms=%d nick=%v invites=%d stray=%d keepctx=%v", strat, nRooms, withNick, nInv, nStray, keepCtx)
 	for _, pl := range plans {
 		for _, c := range pl {
@@ -318,7 +319,9 @@ func runC18(rc *RC) {
 			case 1:
 				pre = `<x xmlns="urn:verif:other"/>`
 			}
-			pw(fmt.Sprintf(`<message from="roomx%d@conf.example.net">%s<x xmlns="http://jabber.org/protocol/muc#user">%s</x>%s</message>`, i, pre, body, post))
+			// stanza ids are chosen by the sender: none, one per message, or every room numbering its stanzas from 1
+			idAttr := []string{"", fmt.Sprintf(` id="m%d"`, i), ` id="1"`, ` id="1"`}[invIDMode]
+			pw(fmt.Sprintf(`<message from="roomx%d@conf.example.net"%s>%s<x xmlns="http://jabber.org/protocol/muc#user">%s</x>%s</message>`, i, idAttr, pre, body, post))
 			rc.Fire("invite")
 		}
 		pw(`<message from="someone@example.net" type="chat"><body>unrelated</body></message>`)
